@@ -85,6 +85,12 @@ def run(cx):
     cx.ob("R02a", rets[0] if rets else nul, ok, "the empty-production marker None is removed and the fixpoint set returned" if ok else "returned nullable set / removal of the None marker altered")
 
     # ------------------------------------------------------------------ R02b
+    # the three builders are analysed with their private helpers expanded in place
+    from sa.inline import inlined as _inl
+    first, _u1 = _inl(repo.modules[REL], first, nested=True, tests=True)
+    follow, _u2 = _inl(repo.modules[REL], follow, nested=True, exclude=("_calc_first_sets",))
+    if _u1 or _u2:
+        cx.note(f"R02b/c: expanded in place: {_u1 + _u2}")
     nullables = params(first)[-1]
     terminals = params(first)[2]
     owner_loops = [l for l in walk_local(first) if isinstance(l, ast.For) and norm(l.iter).endswith(".items()") and isinstance(l.target, ast.Tuple) and len(l.target.elts) == 2]
@@ -162,6 +168,7 @@ def run(cx):
     cx.ob("R02c", iw, bool(ex_dep), "the all-nullable continuation records FOLLOW(symbol) >= FOLLOW(owner)" if ex_dep else
           "no FOLLOW-inclusion edge is recorded when everything after a symbol is nullable: FOLLOW sets are too small and table entries are missing", stmt="FOLLOW walk: tail edge")
     early = [e for ps_ in summ.per_class.values() if ps_ for p_ in ps_ for e in _dep(p_.effects)] + ([] if not any(p_.how == "break" for ps_ in summ.per_class.values() if ps_ for p_ in ps_) else _dep(summ.after_break))
+    cx.need(not any(e[0].startswith("nested:") for e in ex_dep + early), "R02c", follow, "an inclusion edge is recorded under a condition that is not resolved")
     for e in ex_dep:
         ok = e == ("add", deps_recv, owner)
         cx.ob("R02c", iw, ok, "FOLLOW(owner) flows into FOLLOW(symbol) only when everything after the symbol is nullable" if ok else
